@@ -20,7 +20,7 @@ def main(chk: core.Check, replay):
         base.setdefault(modelcase.render_text(r["blocks"]), []).append(r)
     split = [k for k in sorted(base) if 'expressions("' in k]
     other = [k for k in sorted(base) if 'expressions("' not in k]
-    n = 4 if quick else 24
+    n = 3 if quick else 24
     keys = split[: n - n // 2] + other[: n // 2]
     use = [r for k in keys for r in base[k]]
     out = layoutdeco.replay(use, chk.nproc)
